@@ -392,7 +392,14 @@ def _run(prop, mod, tier, seed, work, t0, replay_file) -> int:
                 tb = traceback.extract_tb(e.__traceback__)
                 lib = [f for f in tb if str(Path(f.filename).resolve()).startswith(str((REPO / "src").resolve()))]
                 if not lib:
-                    raise
+                    # the harness itself stumbled (an index / key / assertion in generator code): on the unchanged tree
+                    # this never happens, so the library has answered in a way the scenario did not foresee and the
+                    # correspondence cannot be completed -- a broken tie: the cases seen so far are judged as usual and,
+                    # when none of them exhibits a failing input, the violation is reported as no-failing-input-found
+                    hw = [f for f in tb if "/harness/" in f.filename]
+                    at = f"{Path(hw[-1].filename).name}:{hw[-1].lineno} in {hw[-1].name}" if hw else "?"
+                    tie_broken.append(f"correspondence harness could not complete its scenario: {type(e).__name__}: {str(e)[:160]} at {at}")
+                    return
                 where = lib[-1]
                 caller = [f for f in tb if "/harness/" in f.filename]
                 at = f"{Path(where.filename).name}:{where.lineno} in {where.name}"
